@@ -114,6 +114,45 @@ func init() {
 				r.Fail(dp.Name()+":no-assign", dp.Decl.Pos(), nil, "Deploy no longer computes which old checkpoints each new operator needs")
 				return
 			}
+			// the old ranges stay index-aligned with the old checkpoints: between being filled and being
+			// handed to AssignRanges the slice is not passed to anything (sort, reverse, compact, append)
+			// nor re-assigned; the only uses are the indexed fill, len/cap and the AssignRanges argument.
+			if oldRanges != nil {
+				for _, u := range r.P.Uses(oldRanges) {
+					upos := u.Ident.Pos()
+					if upos < dp.Decl.Pos() || upos > dp.Decl.End() {
+						continue
+					}
+					path := r.P.PathTo(u.File, upos, upos)
+					ok := false
+					for k := len(path) - 1; k >= 0 && !ok; k-- {
+						switch x := path[k].(type) {
+						case *ast.IndexExpr:
+							if prog.IdentObj(info, x.X) == oldRanges {
+								ok = true // element read or the indexed fill
+							}
+						case *ast.CallExpr:
+							if r.P.CalleeFunc(info, x) == assign.Obj {
+								ok = true
+							}
+							if id, isID := ast.Unparen(x.Fun).(*ast.Ident); isID && (id.Name == "len" || id.Name == "cap") && info.Uses[id] != nil && info.Uses[id].Pkg() == nil {
+								ok = true
+							}
+							k = -1 // innermost call decides
+						case *ast.RangeStmt:
+							if prog.IdentObj(info, x.X) == oldRanges {
+								ok = true
+							}
+						case ast.Stmt:
+							k = -1
+						}
+					}
+					r.Site(upos, "use of the old-ranges slice")
+					if !ok {
+						r.Fail(dp.Name()+":old-ranges-permuted", upos, nil, "the old key-group ranges are passed to / rewritten by something other than AssignRanges after being built index-by-index from the old operator checkpoints: if their order changes (e.g. a sort) the indices AssignRanges returns no longer select the matching checkpoints in Pick(ckpt.GetOperatorCheckpoints(), ...)")
+					}
+				}
+			}
 			// inside the operator loop: Checkpoints: Pick(oc, assignments[i]) with i the loop index over a.operators
 			opsF := r.P.Field("jobs", "Assembly", "operators")
 			okPick := false
